@@ -60,7 +60,9 @@ class StochasticGame:
         """
         transitions = 0
         for state_transitions in self.transition_list:
-            transitions += len(state_transitions)
+            # counting happens before the game is validated: skip malformed entries
+            if isinstance(state_transitions, list):
+                transitions += len(state_transitions)
         return transitions
 
     def init_states(self):
